@@ -7,13 +7,21 @@
 EXTENDS SdoBlock, Json, IOUtils
 
 KInit(t) == [op |-> "none", bd |-> BdIdle, bu |-> BuIdle, acc |-> <<>>, committed |-> NoVal,
-             dist |-> FALSE, ci |-> 0, busy |-> FALSE, srvdead |-> FALSE, noend |-> FALSE, corrupt |-> FALSE]
+             dist |-> FALSE, ci |-> 0, busy |-> FALSE, srvdead |-> FALSE, noend |-> FALSE, corrupt |-> FALSE, needTA |-> FALSE]
 KShow(st) == [op |-> st.op, bd |-> st.bd, bu |-> st.bu, acclen |-> Len(st.acc), dist |-> st.dist,
               busy |-> st.busy, srvdead |-> st.srvdead,
               committed |-> IF st.committed = NoVal THEN -1 ELSE Len(st.committed)]
 
 Bad(st, why) == [ok |-> FALSE, why |-> why, st |-> st]
 Good(st) == [ok |-> TRUE, why |-> "", st |-> st]
+\* C07: a client abort frame carrying the time-out code 0x05040000 answers a lost response
+IsTimeoutAbort(q) == Len(q) = 8 /\ q[1] = 128 /\ SubSeq(q, 5, 8) = <<0, 0, 4, 5>>
+ClearTA(st, q) == IF IsTimeoutAbort(q) THEN [st EXCEPT !.needTA = FALSE] ELSE st
+\* a disturbed request/response exchange: the server acted on the request, the client got e.dlv
+Disturbed(st, e) == [st EXCEPT !.dist = st.dist \/ e.fault # "none",
+                               !.needTA = st.needTA \/ e.fault = "drop",
+                               \* an abort frame is the server's own: it has left the transfer
+                               !.srvdead = st.srvdead \/ e.fault = "abort"]
 
 OnCall(st, e) ==
     IF st.busy THEN Bad(st, "call while busy")
@@ -29,7 +37,7 @@ OnCall(st, e) ==
 \* ---- download ---------------------------------------------------------------------------------
 BdXEv(st, e, data) ==
     LET bd == st.bd IN
-    IF e.fault # "none" \/ e.dlv # e.r THEN Bad(st, "HARNESS: exchange faults are not used in block traces")
+    IF e.fault = "none" /\ e.dlv # e.r THEN Bad(st, "HARNESS: undisturbed exchange delivered something else")
     ELSE IF st.srvdead
       THEN IF Len(e.r) <= 1 /\ (e.r = <<>> \/ IsAbort(e.r[1])) THEN Good(st)
            ELSE Bad(st, "HARNESS: reference server answered after it had aborted")
@@ -38,7 +46,7 @@ BdXEv(st, e, data) ==
              THEN Bad(st, "block download initiate request is not the CiA 301 frame")
            ELSE IF Len(e.r) # 1 \/ ~IsBdInitResp(e.r[1], bd.idx, bd.sub) \/ (e.r[1][1] = 164 /\ ~bd.crcReq)
              THEN Bad(st, "HARNESS: reference server initiate response malformed")
-           ELSE Good([st EXCEPT !.bd = [bd EXCEPT !.ph = "blk", !.B = e.r[1][5],
+           ELSE Good([Disturbed(st, e) EXCEPT !.bd = [bd EXCEPT !.ph = "blk", !.B = e.r[1][5],
                                                   !.crcOn = (e.r[1][1] = 164)]])
     ELSE IF bd.ph = "end"
       THEN LET n == 7 - LastLen(bd.dlen)
@@ -47,7 +55,7 @@ BdXEv(st, e, data) ==
                 THEN Bad(st, "end request: wrong unused-byte count, CRC or reserved bytes")
               ELSE IF BdEndAccept(bd, st.acc, e.q)
                 THEN IF e.r # <<BdEndResp>> THEN Bad(st, "HARNESS: reference server did not confirm a valid end request")
-                     ELSE Good([st EXCEPT !.bd = [bd EXCEPT !.ph = "done"],
+                     ELSE Good([Disturbed(st, e) EXCEPT !.bd = [bd EXCEPT !.ph = "done"],
                                           !.committed = BdCommitted(st.acc, (e.q[1] \div 4) % 8)])
                 ELSE IF Len(e.r) = 1 /\ IsAbort(e.r[1])
                        THEN Good([st EXCEPT !.srvdead = TRUE, !.dist = TRUE])
@@ -75,14 +83,15 @@ BdAckEv(st, e) ==
     IF st.srvdead THEN Bad(st, "HARNESS: acknowledge from a dead server")
     ELSE IF ~BdAckLegal(bd, e.r) THEN Bad(st, "HARNESS: reference server acknowledge is not <<ackseq = accepted, blksize 1..127>>")
     ELSE IF bd.ph \notin {"waitack", "blk"} THEN Bad(st, "HARNESS: acknowledge in the wrong phase")
-    ELSE Good([st EXCEPT !.bd = BdAfterAck(bd, e.r),
-                         !.dist = st.dist \/ e.lost \/ (bd.lossBlk > 0 /\ bd.fin) \/ bd.losses > 1
+    ELSE Good([st EXCEPT !.bd = BdAfterAck(bd, e.r), !.srvdead = (e.kind = "abort"),
+                         !.needTA = st.needTA \/ e.kind = "drop",
+                         !.dist = st.dist \/ e.lost \/ e.kind # "none" \/ (bd.lossBlk > 0 /\ bd.fin) \/ bd.losses > 1
                                   \/ (bd.ph = "blk")])
 
 \* ---- upload -----------------------------------------------------------------------------------
 UlX(st, e, value, srvcrc) ==
     LET bu == st.bu IN
-    IF e.fault # "none" \/ e.dlv # e.r THEN Bad(st, "HARNESS: exchange faults are not used in block traces")
+    IF e.fault = "none" /\ e.dlv # e.r THEN Bad(st, "HARNESS: undisturbed exchange delivered something else")
     ELSE IF bu.ph # "init" THEN Bad(st, "unexpected request/response exchange during block upload")
     ELSE IF ~(IsFrame8(e.q) /\ e.q[1] = 160 + (IF bu.crcReq THEN 4 ELSE 0) /\ FIdx(e.q) = bu.idx
               /\ FSub(e.q) = bu.sub /\ e.q[5] \in 1..127 /\ e.q[7] = 0 /\ e.q[8] = 0)
@@ -90,13 +99,13 @@ UlX(st, e, value, srvcrc) ==
     ELSE IF Len(e.r) # 1 \/ ~IsBuInitResp(e.r[1], bu.idx, bu.sub, Len(value))
             \/ ((e.r[1][1] \div 4) % 2 = 1) # (bu.crcReq /\ srvcrc)
       THEN Bad(st, "HARNESS: reference server block upload initiate response malformed")
-    ELSE Good([st EXCEPT !.bu = [bu EXCEPT !.ph = "start", !.B = e.q[5],
+    ELSE Good([Disturbed(st, e) EXCEPT !.bu = [bu EXCEPT !.ph = "start", !.B = e.q[5],
                                            !.crcOn = (bu.crcReq /\ srvcrc)]])
 
 UlCq(st, e) ==
     LET bu == st.bu IN
     IF ~IsFrame8(e.q) THEN Bad(st, "client frame is not 8 bytes")
-    ELSE IF e.q[1] = 128 THEN Good([st EXCEPT !.bu = [bu EXCEPT !.ph = "aborted"]])
+    ELSE IF e.q[1] = 128 THEN Good([ClearTA(st, e.q) EXCEPT !.bu = [bu EXCEPT !.ph = "aborted"]])
     ELSE IF bu.ph = "start"
       THEN IF e.q = BuStart THEN Good([st EXCEPT !.bu = [bu EXCEPT !.ph = "blk"]])
            ELSE Bad(st, "start of block upload is not the CiA 301 frame")
@@ -117,7 +126,7 @@ UlCq(st, e) ==
 UlSseg(st, e, value) ==
     LET bu == st.bu IN
     IF ~BuServerSegLegal(bu, value, e.r) THEN Bad(st, "HARNESS: reference server segment malformed")
-    ELSE Good([st EXCEPT !.bu = BuOnSeg(bu, e.r, e.how), !.dist = st.dist \/ e.how # "ok",
+    ELSE Good([st EXCEPT !.bu = BuOnSeg(bu, e.r, e.how), !.dist = st.dist \/ e.how # "ok" \/ e.kind # "none",
                          \* content damage (as opposed to loss, which the sequence numbers reveal)
                          !.corrupt = st.corrupt \/ e.how \notin {"ok", "lost"}])
 
@@ -126,8 +135,9 @@ UlSend(st, e, value) ==
         want == BuEnd(7 - LastLen(Len(value)), IF bu.crcOn THEN Crc16(value) ELSE 0)
     IN IF bu.ph # "end" THEN Bad(st, "HARNESS: end frame in the wrong phase")
        ELSE IF e.r # want THEN Bad(st, "HARNESS: reference server end frame malformed")
-       ELSE Good([st EXCEPT !.bu = [bu EXCEPT !.ph = "endsent"], !.dist = st.dist \/ e.how # "ok",
+       ELSE Good([st EXCEPT !.bu = [bu EXCEPT !.ph = "endsent"], !.dist = st.dist \/ e.how # "ok" \/ e.kind # "none",
                             !.corrupt = st.corrupt \/ e.how \notin {"ok", "lost"},
+                            !.needTA = st.needTA \/ e.kind = "drop",
                             \* the delivered frame is not an end-of-block-upload frame at all
                             !.noend = (e.how = "wrongend")])
 
@@ -149,6 +159,7 @@ OnRet(st, e, data, value) ==
 OnRaise(st, e) ==
     IF ~st.busy THEN Bad(st, "raise without call")
     ELSE IF e.cls = "other" THEN Bad(st, "call raised something that is not an SDO error")
+    ELSE IF st.needTA THEN Bad(st, "a lost response was not answered with an abort frame carrying the time-out code")
     ELSE IF ~st.dist THEN Bad(st, "undisturbed (or repairable single-loss) block transfer failed")
     ELSE Good([st EXCEPT !.busy = FALSE])
 
@@ -156,11 +167,13 @@ KStep(st, e, t) ==
     LET data == IF st.ci > 0 THEN t.ev[st.ci].data ELSE <<>> IN
     CASE e.e = "call" -> OnCall(st, e)
       [] e.e = "x" -> IF st.dist /\ Len(e.q) = 8 /\ e.q[1] = 128 /\ e.r = <<>>
-                        THEN Good([st EXCEPT !.srvdead = TRUE])      \* (repeated) client abort
+                        THEN Good([ClearTA(st, e.q) EXCEPT !.srvdead = TRUE])      \* (repeated) client abort
+                      ELSE IF st.dist /\ st.op = "bul" /\ st.bu.ph # "init" /\ Len(e.r) = 1 /\ IsAbort(e.r[1])
+                        THEN Good([st EXCEPT !.srvdead = TRUE])   \* out-of-phase request after a disturbance
                       ELSE IF st.op = "bdl" THEN BdXEv(st, e, data) ELSE UlX(st, e, t.value, t.srvcrc)
       [] e.e = "seg" -> BdSegEv(st, e, data)
       [] e.e = "ack" -> BdAckEv(st, e)
-      [] e.e = "cab" -> IF st.dist THEN Good([st EXCEPT !.srvdead = TRUE])
+      [] e.e = "cab" -> IF st.dist THEN Good([ClearTA(st, e.q) EXCEPT !.srvdead = TRUE])
                                   ELSE Bad(st, "client aborted an undisturbed block download")
       [] e.e = "cq" -> UlCq(st, e)
       [] e.e = "sseg" -> UlSseg(st, e, t.value)
